@@ -198,6 +198,7 @@ func checkSize(t TB, c EncSpec, pat [][]bool) string {
 
 // checkC11 returns a class label ("" = rejected).
 func checkC11(t TB, c EncSpec) string {
+	noteCase("C11", "rendering", c)
 	const P, K = "C11", "rendering"
 	plainSpec := c
 	plainSpec.Scheme = nil
